@@ -34,7 +34,7 @@ pub fn judge_bytes(prop: &str, data: &[u8]) -> Option<Finding> {
             wrap("c05.prefixes", &c, c05::judge(&c, &mut st)).or_else(|| wrap("c05.trait", &v, c05::judge_trait(&v, &mut st)))
         }
         "C17" => {
-            let c = c17::Case { input: v, fill_seed: data.len() as u32 | 1 };
+            let c = c17::Case { input: v, fill_seed: data.len() as u32 | 1, tail: vec![] };
             wrap("c17.random", &c, c17::judge(&c, &mut st))
         }
         _ => None,
